@@ -279,9 +279,11 @@ fn main() {
             println!("selftest ok ({})", profile());
         }
         "profile" => println!("{}", profile()),
+        "fmt-probe" => fmt_probe(),
         "encode" => cmd_encode(rest),
         "replay" => cmd_replay(rest),
         "record" => gen::cmd_record(rest),
+        "numtext" => gen::cmd_numtext(rest),
         "helpers" => helpers::cmd_helpers(rest),
         "cli" => cli::cmd_cli(rest),
         "hist" => hist::cmd_hist(rest),
@@ -295,5 +297,13 @@ fn main() {
             }
         }
         other => die(&format!("unknown subcommand {}", other)),
+    }
+}
+
+#[allow(dead_code)]
+pub fn fmt_probe() {
+    let xs = [1e15, 1e16, 1.5e16, 123456789012345680.0, 1e20, 1e21, 1.5e21, 1e22, 0.1, 0.00001, 0.000001, 1e-7, 1.5e-7, 123.456, 5e-324, 1.7976931348623157e308, 0.3, 1.0/3.0, 2.5, 100.5, 1e300, 9007199254740993.0, 18446744073709551616.0, 1e17, 12345678901234567.0, 0.000012345, 0.00001234, 99999999999999990000.0, 1e-5, 9.5e-6];
+    for x in xs.iter() {
+        println!("{:e} -> {}", x, serde_json::Number::from_f64(*x).unwrap());
     }
 }
